@@ -2,7 +2,9 @@
 //!
 //! The threaded routines of [`AdjacencyList`](crate::AdjacencyList) and
 //! [`AdjacencyMap`](crate::AdjacencyMap) import their threading primitives
-//! from this module when the guard is on. Without the `sched` feature (which
+//! from this module when the guard is on (one block-scoped
+//! `use crate::verif_rt::shadow::*;` per routine, which shadows the file-level
+//! `std` imports). Without the `sched` feature (which
 //! only the verification harness's shadow manifest declares) the primitives
 //! are the ones from `std`; with it they are the controlled-scheduler
 //! versions from `shuttle`. `available_parallelism` can be overridden per
@@ -12,21 +14,34 @@
 #![allow(missing_docs)]
 
 #[cfg(feature = "sched")]
-pub use shuttle::{
-    sync::{
-        atomic::AtomicBool,
-        Mutex,
-    },
-    thread::{
-        scope,
-        spawn,
-    },
+pub use shuttle::sync::{
+    atomic,
+    mpsc,
+    Barrier,
+    Condvar,
+    Mutex,
+    Once,
+    RwLock,
 };
 #[cfg(not(feature = "sched"))]
-pub use std::{
-    sync::{
-        atomic::AtomicBool,
-        Mutex,
+pub use std::sync::{
+    atomic,
+    mpsc,
+    Barrier,
+    Condvar,
+    Mutex,
+    Once,
+    RwLock,
+};
+pub use self::{
+    atomic::{
+        AtomicBool,
+        AtomicI32,
+        AtomicI64,
+        AtomicIsize,
+        AtomicU32,
+        AtomicU64,
+        AtomicUsize,
     },
     thread::{
         scope,
@@ -43,17 +58,38 @@ use std::{
 /// `thread::` path.
 pub mod thread {
     #[cfg(feature = "sched")]
-    pub use shuttle::thread::{
-        scope,
-        spawn,
-    };
+    pub use shuttle::thread::*;
     #[cfg(not(feature = "sched"))]
-    pub use std::thread::{
-        scope,
-        spawn,
-    };
+    pub use std::thread::*;
 
     pub use super::available_parallelism;
+}
+
+/// Everything a threaded routine may name, for a block-scoped glob import
+/// (`use crate::verif_rt::shadow::*;`) that takes precedence over the
+/// file-level imports from `std`: whatever primitive the routine uses, the
+/// harness's scheduler sees it.
+pub mod shadow {
+    pub use super::{
+        atomic,
+        available_parallelism,
+        mpsc,
+        scope,
+        spawn,
+        thread,
+        AtomicBool,
+        AtomicI32,
+        AtomicI64,
+        AtomicIsize,
+        AtomicU32,
+        AtomicU64,
+        AtomicUsize,
+        Barrier,
+        Condvar,
+        Mutex,
+        Once,
+        RwLock,
+    };
 }
 
 /// What `available_parallelism` answers on this thread.
